@@ -105,10 +105,18 @@ CHECKS = {
             "Every assignment of 2 keys to the layers for 2-3 files in a 2-level tree is materialised on disk (ini and toml/cfg variants, HOME redirected, --config, overrides, inline directives) and observed through the config the pipeline actually uses and through rule behaviour; the effective value must be the last setter's and must not depend on which files were processed before (both lint_paths and lint_string entry styles, permuted orders).",
             "Config between HOME and cwd is deliberately left out (ambiguous in the statement). Known finding: a config above cwd but outside HOME is honoured. Notes: notes/C27.md.",
             "DESIGN.md §5 C27"),
-    "C32": (MC, "TLA+ model of process-level shared state and operation histories (spec/Session.tla), TLC enumerates all histories to the bound; spec->code: each history run in one fresh process and compared per operation with fresh-process baselines (SessionTrace); strace of CLI lint/parse/render for the read-only clause",
+    "C32": (EX, "TLA+ model of process-level shared state and operation histories (spec/Session.tla), TLC enumerates all histories to the bound; spec->code: each history run in one fresh process and compared per operation with fresh-process baselines (SessionTrace); strace of CLI lint/parse/render for the read-only clause",
             "All histories of length <= 2 (quick) / 3 (thorough) over ~12 operations chosen to touch each piece of shared state (Jinja blocks and loops, disable_noqa_except, nested and inline config, output formats, parse errors, variants) give the same violations, parse records, rendered text and fixed strings as the same operation in a fresh process (second baseline under another PYTHONHASHSEED); lint/parse/render never open an input for writing, rename, unlink, chmod or change content, inode or mtime.",
             "Results are compared by value; internal state that does not change results is reported as DRIFT. Notes: notes/C32.md.",
             "DESIGN.md §5 C32"),
+    "C25": (MC, "TLA+ contract + transcription of paths_from_path / _iter_files_in_path (outer and inner ignore specs, exact-file arguments, extensions, spellings, working directory) in spec/Discovery.tla, TLC exhaustive; spec->code replay of every enumerated world materialised on disk",
+            "TLC shows the transcribed walk refines the contract (files under the paths with a configured extension and not matched by an applicable ignore file; the same selection for relative, ./relative, absolute and '.' spellings) over 272 worlds x 180 queries; every world is created in a temp dir and queried through the real paths_from_path (235k calls, plus subprocess runs for the default working_path); the pre-fix retention test is kept as a regression model that TLC must break.",
+            "Pattern matching is supplied as a table (pathspec is trusted). Ignore files above the working directory are left unspecified. Known finding: `dir/*` + `!dir/x.sql` prunes the directory. Notes: notes/C25.md.",
+            "DESIGN.md §5 C25"),
+    "C26": (MC, "TLA+ model of _safe_create_replace_file / persist_tree over an abstract file system with fail and crash at every operation (spec/AtomicWrite.tla, AtomicWriteOps.tla), TLC exhaustive; every fail/crash plan replayed on the real code by fault injection (AtomicWriteObs); strace of a real `sqlfluff fix` validated against the op order (AtomicWriteTrace)",
+            "For every operation of the write path (stat, mkstemp in the same directory, write, flush, fsync, close, chmod, rename, cleanup) and each outcome (ok / raises / process dies) the real code is driven there by injected faults or os._exit in a forked child, and the directory afterwards must be a state the model allows: the target is the complete original or the complete fixed content, no temp file remains on return, mode, encoding and BOM are kept, with a suffix the original is untouched; the syscall trace shows temp in the same directory, data synced before rename, target never opened for writing.",
+            "580 plan replays (quick). fsync removal is only observable in the strace trace. Known finding: shutil.move falls back to an in-place copy when rename fails. Notes: notes/C26.md.",
+            "DESIGN.md §5 C26"),
     "C20": (MC, "TLA+ contract + transcription of IgnoreMask (spec/Noqa.tla), TLC exhaustive; spec->code replay of every enumerated case; code->spec trace validation of generated files (NoqaTrace)",
             "TLC shows the transcribed masking algorithm refines the noqa contract for every directive list/violation set in scope, every such case is replayed into the real IgnoreMask, and recorded lint runs of generated files (all reference forms, tree and source-fallback masks, disable_noqa) are validated against the same contract.",
             "Scope: 3 lines, <=2 (quick) / <=3 (thorough) directives, <=2 violations, codes {A,B,PRS}. Trusted: object builders, file concretiser, code mapping LT01/CP01/PRS. `used` of enable directives and of several directives hiding the same violation is left unconstrained (ambiguous in the statement).",
